@@ -368,6 +368,12 @@ impl Engine {
     }
 
     fn record_failure(&self, campaign: &str, failure: Failure, case: Value) {
+        if failure.signature.starts_with("harness") {
+            // a defect of the machinery (generator produced something its own
+            // reference cannot read, two references disagree): exit 2
+            self.harness_error(format!("campaign {campaign}: {} ({}) case={}", failure.message, failure.signature, case));
+            return;
+        }
         if let Some(k) = self.is_known(&failure.signature) {
             let line = format!(
                 "KNOWN-FINDING: property={} {} [{}] e.g. {}",
